@@ -752,6 +752,83 @@ func wrongTypeFor(v *jv) []*jv {
 	return out
 }
 
+func baseByName(name string) *config.Config {
+	switch name {
+	case "lite":
+		return liteBase()
+	case "classic":
+		return classicBase()
+	}
+	return shippedBase()
+}
+
+// malformedPatches are texts that are not one JSON document: there is no RFC 7396 result, so
+// nothing can "decode strictly as a configuration" and the request must be refused.
+var malformedPatches = []string{``, ` `, `{`, `}`, `{"config":}`, `{"config":{"bind":"127.0.0.1:1"},}`, `{} {}`, `{}x`, `nul`, `[1,]`,
+	`{'config':{}}`, `{config:{}}`, "\ufeff{}", `{"config":{"bind":"a"}`, `{"config":{"bind":"a}}`, `{"config":{"bind":01}}`, `// c\n{}`, `{"config":undefined}`}
+
+func checkMalformed(r *vrt.R, baseName string, base *config.Config, text string) {
+	r.Eval(1)
+	var got *config.Config
+	var err error
+	cs := cfgCase{Part: "M", Base: baseName, Patch: text}
+	if pk, pv := vrt.Catch(func() { got, err = mergeConfigPatch(cloneConfig(base), text) }); pk {
+		r.Violation("mergeConfigPatch/panic/malformed-patch", fmt.Sprintf("base %s, patch text %q: panic %v", baseName, text, pv), cs)
+		return
+	}
+	var probe any
+	if json.Unmarshal([]byte(text), &probe) == nil {
+		r.Violation("harness/malformed-patch-is-json", fmt.Sprintf("%q parses as JSON", text), nil)
+		return
+	}
+	if err == nil {
+		r.Violation("mergeConfigPatch/accepted-malformed-patch", fmt.Sprintf("base %s: the patch text %q is not a JSON document but mergeConfigPatch returned a configuration (bind %q, lite %v)", baseName, text, got.Config.Bind, got.Config.Lite.Enabled), cs)
+		return
+	}
+	r.Class("C:rejected:malformed-patch-text")
+}
+
+func checkNilCurrent(r *vrt.R) {
+	r.Eval(1)
+	var got *config.Config
+	var err error
+	if pk, pv := vrt.Catch(func() { got, err = mergeConfigPatch(nil, `{}`) }); pk {
+		r.Violation("mergeConfigPatch/panic/no-current-config", fmt.Sprintf("panic %v", pv), cfgCase{Part: "N"})
+	} else if err == nil {
+		r.Violation("mergeConfigPatch/accepted-without-current-config", fmt.Sprintf("no effective configuration to patch, but a configuration was returned: %v", got != nil), cfgCase{Part: "N"})
+	} else {
+		r.Class("C:rejected:no-current-config")
+	}
+}
+
+// scalarContents returns replacement values of the SAME JSON type as v whose content is what a
+// text pipeline could mangle (the merge algorithm itself never looks inside scalars, but
+// mergeConfigPatch carries them through JSON and YAML codecs). All literals are in the canonical
+// form encoding/json writes, so the reference document and the real pipeline agree textually.
+func scalarContents(v *jv) []*jv {
+	if v.obj {
+		return nil
+	}
+	var out []*jv
+	add := func(ls ...string) {
+		for _, l := range ls {
+			if l != v.lit {
+				out = append(out, lit(l))
+			}
+		}
+	}
+	switch {
+	case strings.HasPrefix(v.lit, `"`):
+		long, _ := json.Marshal(strings.Repeat("x y ", 80))
+		add(`""`, `"null"`, `"~"`, `"yes"`, `"1e3"`, `"0x10"`, `" a: b #c"`, `"- x"`, `"line1\nline2"`, `"\ttab"`, `"§ü€"`, `"\u003c\u003e\u0026"`, `"'\"\\"`, `"{}"`, `"[]"`, string(long))
+	case v.lit == `true` || v.lit == `false`:
+		add(`true`, `false`)
+	case v.lit != `null` && !strings.HasPrefix(v.lit, `[`):
+		add(`0`, `-1`, `1.5`, `1000000`)
+	}
+	return out
+}
+
 func partC(r *vrt.R) {
 	bases := []struct {
 		name string
@@ -766,6 +843,10 @@ func partC(r *vrt.R) {
 		r.Note("config.yml of the repo not loadable; shipped base skipped")
 	}
 	item := 0
+	if r.Mine(item) {
+		checkNilCurrent(r)
+	}
+	item++
 	for _, b := range bases {
 		doc, err := effectiveDoc(b.c)
 		if err != nil {
@@ -836,6 +917,28 @@ func partC(r *vrt.R) {
 				item++
 			}
 		})
+		// 2b. scalar contents: every scalar leaf replaced by same-typed values with awkward content
+		if b.name != "shipped-config.yml" {
+			allPaths(doc, nil, func(path docPath, v *jv) {
+				if len(path) == 0 {
+					return
+				}
+				for _, w := range scalarContents(v) {
+					if r.Mine(item) {
+						checkConfigPatch(r, b.name, b.c, doc, patchAt(path, w), false, "scalar-content")
+						r.Nontrivial(1)
+					}
+					item++
+				}
+			})
+		}
+		// 2c. patch texts that are not a JSON document
+		for _, text := range malformedPatches {
+			if r.Mine(item) {
+				checkMalformed(r, b.name, b.c, text)
+			}
+			item++
+		}
 		// 3. non-object and null top-level patches replace the whole document
 		for _, top := range []string{`null`, `1`, `"s"`, `[]`, `[{"config":{}}]`} {
 			if r.Mine(item) {
@@ -992,6 +1095,46 @@ func TestVerif(t *testing.T) {
 			r.ClassN("B:json-text-pipeline", len(shallow))
 		}
 
+		// Part A2 / B2: value and member-name SHAPES the main alphabet does not contain. RFC 7396
+		// treats null as the only special value and member names as opaque, exact strings: the
+		// "falsy" values 0, "", false, [] and the string "null" replace like any other value, and
+		// names differing in case / the empty name are different members. Every ordered pair of
+		// depth<=2 documents over names {a, A, ""} and these leaves (plus depth<=3 over the single
+		// name a), through applyMergePatch on Go trees (A2) and through the JSON text pipeline (B2).
+		leaves2 := []string{`null`, `0`, `""`, `false`, `[]`, `1`, `"null"`}
+		vals2 := gen(2, []string{"a", "A", ""}, leaves2)
+		deep2 := gen(3, []string{"a"}, leaves2)
+		if r.Shard == 0 {
+			r.Extra("values_part_A2", len(vals2)+len(deep2))
+		}
+		for _, set := range [][]*jv{vals2, deep2} {
+			for i, tv := range set {
+				if !r.Mine(i) {
+					continue
+				}
+				if i%16 == 0 && r.Expired() {
+					break
+				}
+				for _, pv := range set {
+					for _, part := range []string{"A", "B"} {
+						got, want, pk := runPair(part, tv, pv)
+						if pk != nil || got != want {
+							prefix := "applyMergePatch"
+							if part == "B" {
+								prefix = "json-pipeline"
+							}
+							r.Violation(prefix+"/differs-from-rfc7396/"+failKind(tv, pv)+"/falsy-values-and-member-names",
+								fmt.Sprintf("target %s patch %s: got %s (panic %v), RFC 7396 gives %s", tv.canon(), pv.canon(), got, pk, want),
+								pairCase{Part: part + "2", Target: tv.canon(), Patch: pv.canon()})
+						}
+					}
+				}
+				r.Eval(2 * len(set))
+				r.ClassN("A2:falsy-values-and-member-names", len(set))
+				r.ClassN("B2:falsy-values-and-member-names", len(set))
+			}
+		}
+
 		// Part C
 		partC(r)
 	})
@@ -1000,6 +1143,21 @@ func TestVerif(t *testing.T) {
 func replay(r *vrt.R, rp map[string]string) {
 	r.Eval(1)
 	switch rp["part"] {
+	case "A2", "B2":
+		tv, pv := parseJV(rp["target"]), parseJV(rp["patch"])
+		part := strings.TrimSuffix(rp["part"], "2")
+		got, want, pk := runPair(part, tv, pv)
+		if pk != nil || got != want {
+			prefix := "applyMergePatch"
+			if part == "B" {
+				prefix = "json-pipeline"
+			}
+			r.Violation(prefix+"/differs-from-rfc7396/"+failKind(tv, pv)+"/falsy-values-and-member-names", fmt.Sprintf("target %s patch %s: got %s (panic %v) want %s", rp["target"], rp["patch"], got, pk, want), rp)
+		}
+	case "M":
+		checkMalformed(r, rp["base"], baseByName(rp["base"]), rp["patch"])
+	case "N":
+		checkNilCurrent(r)
 	case "A", "B":
 		tv, pv := parseJV(rp["target"]), parseJV(rp["patch"])
 		got, want, pk := runPair(rp["part"], tv, pv)
@@ -1017,15 +1175,7 @@ func replay(r *vrt.R, rp map[string]string) {
 			r.Violation("applyMergePatch/rfc-appendix-a", "replayed", rp)
 		}
 	case "C":
-		var base *config.Config
-		switch rp["base"] {
-		case "lite":
-			base = liteBase()
-		case "classic":
-			base = classicBase()
-		default:
-			base = shippedBase()
-		}
+		base := baseByName(rp["base"])
 		doc, err := effectiveDoc(base)
 		if err != nil {
 			r.T.Fatal(err)
@@ -1041,7 +1191,7 @@ func replay(r *vrt.R, rp map[string]string) {
 			return
 		}
 		// re-run under every kind label; the key carries the kind, so report under all that fail
-		for _, kind := range []string{"unknown-member", "null-for-unknown-member", "remove-member", "empty-object-at-object", "same-value", "retyped-member", "nonobject-top-level-patch", "two-member-patch"} {
+		for _, kind := range []string{"unknown-member", "null-for-unknown-member", "remove-member", "empty-object-at-object", "same-value", "retyped-member", "nonobject-top-level-patch", "two-member-patch", "scalar-content"} {
 			checkConfigPatch(r, rp["base"], base, doc, patch, false, kind)
 		}
 	}
